@@ -143,7 +143,16 @@ impl Tour {
             - (pos_seg_start..pos_seg_end + 1)
                 .map(|i| self.network.node(self.nodes[i]).travel_distance())
                 .sum();
-        let new_dead_head_distance = self.dead_head_distance
+        let new_dead_head_distance = if self.dead_head_distance == Distance::Infinity {
+            // Infinity cannot be reduced by subtraction, so recompute from the remaining nodes
+            let remaining_nodes: Vec<NodeIdx> = self.nodes[..pos_seg_start]
+                .iter()
+                .chain(self.nodes[pos_seg_end + 1..].iter())
+                .copied()
+                .collect();
+            Tour::compute_dead_head_distance_of_nodes(&remaining_nodes, &self.network)
+        } else {
+            self.dead_head_distance
             - self.dead_head_distance_of_segment(pos_seg_start, pos_seg_end+1)
             // dead_head_distance for the new gap that is created:
             + if pos_seg_start == 0 || pos_seg_end == self.nodes.len() - 1 {
@@ -151,7 +160,8 @@ impl Tour {
             } else {
                 self.network
                     .dead_head_distance_between(self.nodes[pos_seg_start - 1], self.nodes[pos_seg_end + 1])
-            };
+            }
+        };
         let new_costs = self.costs
             - self.costs_of_segment(pos_seg_start, pos_seg_end+1)
             // new costs by dead head trip replacing the segment
@@ -250,9 +260,19 @@ impl Tour {
                 .iter()
                 .map(|n| self.network.node(*n).travel_distance())
                 .sum();
-        let new_dead_head_distance = self.dead_head_distance
-            - self.dead_head_distance_of_segment(start_pos, end_pos)
-            + self.dead_head_distance_of_new_nodes(&new_nodes, start_pos, end_pos);
+        let new_dead_head_distance = if self.dead_head_distance == Distance::Infinity {
+            // Infinity cannot be reduced by subtraction, so recompute from the new node sequence
+            let resulting_nodes: Vec<NodeIdx> = self.nodes[..start_pos]
+                .iter()
+                .chain(new_nodes.iter())
+                .chain(self.nodes[end_pos..].iter())
+                .copied()
+                .collect();
+            Tour::compute_dead_head_distance_of_nodes(&resulting_nodes, &self.network)
+        } else {
+            self.dead_head_distance - self.dead_head_distance_of_segment(start_pos, end_pos)
+                + self.dead_head_distance_of_new_nodes(&new_nodes, start_pos, end_pos)
+        };
 
         let new_costs = self.costs - self.costs_of_segment(start_pos, end_pos)
             + self.costs_of_new_nodes(&new_nodes, start_pos, end_pos);
